@@ -612,6 +612,19 @@ theorem reserve_reserve_pod_lists (c : Cache) (o : RObj) (n : Nat) (hn : n ≠ 0
     (findInfo (reserveRsvM c (some o) n).1 o.uid).isSome = true :=
   ⟨rfl, (updateReservation_lists c { o with node := n } hn).1, (updateReservation_lists c { o with node := n } hn).2⟩
 
+/-- Reserve / Unreserve of either kind of pod ARE plain cache operations of `step` (padd / pdel, rupd / rdel), so
+    ledger_exact and index_inv (ANY history) also cover histories with scheduling cycles and roll-backs at every
+    stage; their side conditions there are LedgerPre (requests non-negative) and IndexPre (the cycle's node is set
+    and the reservation is not cached under another node) -/
+theorem cycle_steps_are_cache_ops (c : Cache) (x : CycIn) (u assumed : Nat) (hasAlloc : Bool) (pu : Nat)
+    (o : RObj) (listed : Option RObj) (n : Nat) :
+    (reserveM c x u).1 = run c (reserveOps x u) ∧
+    unreservePodM c assumed hasAlloc pu = run c (unreserveOps assumed pu) ∧
+    (reserveRsvM c (some o) n).1 = run c [.rupd { o with node := n }] ∧
+    unreserveRsvM c listed pu n = run c [.rdel (match listed with | some o' => o'.uid | none => pu) n] :=
+  ⟨(cycle_is_history c x u assumed hasAlloc pu).1, (cycle_is_history c x u assumed hasAlloc pu).2,
+   (rsv_cycle_is_history c o listed pu n).1, (rsv_cycle_is_history c o listed pu n).2⟩
+
 /-- Reserve failed on a lister miss; the framework still calls Unreserve (stub keyed by pod uid and node): harmless -/
 theorem unreserve_reserve_pod_lister_miss (c : Cache) (u n : Nat) (h : IndexInv c) (hst : NodeStable c u n) :
     (reserveRsvM c none n) = (c, 3) ∧ IndexInv (unreserveRsvM (reserveRsvM c none n).1 none u n) :=
